@@ -11,7 +11,7 @@ from vf.lib import buf
 
 RULE = ("cases: (a) sign/verify pipelines over key lists with n_keys in 0..255 (every n<=8, boundary counts, sampled), every signer index for small n, "
         "edge secret keys, refused secrets; (b) candidate signature strings: library-made, reference-prover-made with chosen small forged scalars and their s+n twins, "
-        "forgeries from public data (incl. the n_keys=0 forgery), bit flips, scalar substitutions, count/length edits, permuted / replaced keys, count mismatch; "
+        "forgeries from public data (incl. the n_keys=0 forgery), bit flips, scalar substitutions, count/length edits, permuted / replaced keys, count mismatch (incl. n_keys + 256m for honest signatures); "
         "(c) parser strings over every count byte and lengths +-. Oracle: pyref.whitelist (ring equation over online_i + H(offline_i+W)(offline_i+W)), never accept n_keys=0. "
         "non-trivial = n_keys != 1 or the string is not an unmodified honest signature")
 ASSUMPTIONS = ["pyref.whitelist / pyref.borromean / pyref.ec are correct readings of whitelist.md and the header (validated by agreement on honest signatures and by selftests)",
@@ -337,6 +337,21 @@ def run_string(env, case):
                     twins += 1
             if twins:
                 classes.append("twin_of_valid_rejected")
+            # key-count mismatch beyond one byte: the same signature against a list of nn + 256*m entries whose first nn entries are the
+            # signed ring (the count is a size_t argument, the signature carries it in one byte) must be rejected
+            if nn >= 1:
+                m = 1 + (sigb[1] & 1)
+                big = nn + 256 * m
+                on_big = buf(64 * big)
+                off_big = buf(64 * big)
+                for i in range(big):
+                    ctypes.memmove(ctypes.addressof(on_big) + 64 * i, ctypes.addressof(on_arr) + 64 * (i % nn), 64)
+                    ctypes.memmove(ctypes.addressof(off_big) + 64 * i, ctypes.addressof(off_arr) + 64 * (i % nn), 64)
+                g3 = lib_verify(env, sig, on_big, off_big, big, lib.pubkey_from_point(w_pt))
+                env.require(g3 == 0, "whitelist_verify accepted a %d-key signature against a list of %d keys (count mismatch, equal mod 256)" % (nn, big),
+                            sig=sigb.hex()[:200], n=nn, n_keys_arg=big)
+                env.require(lib.illegal() == 0 and lib.errors() == 0, "callback fired while verifying against an over-long key list: " + lib.cbmsg())
+                classes.append("count_wrap_rejected")
     else:
         classes.append("parse_reject")
     if nn == 0:
@@ -388,6 +403,6 @@ def run_parse(env, case):
 TESTS = [
     Test("sign_verify", sign_case, run_sign, quick=320, thorough=12000, must_cover=["n=0", "n=1", "n=255", "ref_checked", "related:off_neg", "related:off_same", "related_consecutive"]),
     Test("verify_strings", string_case, run_string, quick=900, thorough=40000,
-         must_cover=["base:forge_hash", "empty_list", "accept", "reject", "s_plus_n_twin", "ref_prover_ok", "twin_of_valid_rejected"]),
+         must_cover=["base:forge_hash", "empty_list", "accept", "reject", "s_plus_n_twin", "ref_prover_ok", "twin_of_valid_rejected", "count_wrap_rejected"]),
     Test("parse", parse_case, run_parse, quick=3000, thorough=60000, must_cover=["accept", "reject"]),
 ]
